@@ -41,6 +41,8 @@ def gen(seed, tier="quick"):
     leafs.append(g.add_ann({"k": "tuple", "items": [arrs[0], "int"]}))
     leafs.append(g.add_ann({"k": "union", "items": ["int", "str"]}))
     leafs.append(g.add_ann({"k": "union", "items": [arrs[0], "str"]}))
+    leafs.append(g.add_ann({"k": "union", "items": ["int", "str"], "pep604": True}))
+    leafs.append(g.add_ann({"k": "union", "items": [arrs[0], "str"], "pep604": True}))
     leafs.append(g.add_ann({"k": "listof", "item": "int"}))
     leafs.append(g.add_ann({"k": "dictof", "item": "int"}))
     leafs.append(g.add_ann({"k": "listof", "item": arrs[0]}))
